@@ -2016,6 +2016,18 @@ class EEA:
             # not a local: a module-level constant (below)
         if isinstance(it, (ast.GeneratorExp, ast.ListComp)) and len(it.generators) == 1:
             return self.min_count(f, it.elt, ch, depth + 1)
+        # a class-level constant read through self / cls (never stored to anywhere in the package)
+        if isinstance(it, ast.Attribute) and isinstance(it.value, ast.Name) and it.value.id in ("self", "cls") and f.cls is not None:
+            owner = next((c_ for c_ in f.cls.repo_mro() if it.attr in c_.attrs and c_.attrs[it.attr] is not None), None)
+            stored = any(isinstance(x, ast.Attribute) and x.attr == it.attr and isinstance(x.ctx, ast.Store) for g_ in self.prog.all_functions() for x in self.I.own_nodes(g_))
+            if owner is not None and not stored:
+                try:
+                    seq0 = self.I.folder.plain(self.I.folder.fold(owner.module, owner.attrs[it.attr]))
+                except Exception:  # noqa: BLE001
+                    seq0 = None
+                if isinstance(seq0, (tuple, list, frozenset)) and seq0 and all(isinstance(x, str) for x in seq0):
+                    return min(x.count(ch) for x in seq0)
+            return 0
         # a constant sequence of strings kept in a module constant / a field of a record constant
         try:
             seq = self.I.folder.plain(self.I.folder.fold(f.module, it))
